@@ -7,8 +7,9 @@
      then every listed check (quick tier) with the change applied.  Result -> /verif/seeded/<name>/ (patch.diff, demo.rs, meta.json)."""
 import json, os, re, shutil, subprocess, sys, time
 
-EVAL = "/tmp/mut/eval"
-VV = "/tmp/vv"
+SLOT = os.environ.get("EVALSLOT", "")          # independent evaluation slots can run side by side
+EVAL = "/tmp/mut/eval" + SLOT
+VV = "/tmp/vv" + SLOT
 
 
 def sh(cmd, cwd=None, timeout=3600):
@@ -54,7 +55,7 @@ def main():
     # sync the current /verif into the evaluation copy (keeps its own harness binding and target dir)
     sh("rsync -a --delete --exclude harness/target --exclude harness/Cargo.toml --exclude .git --exclude replays --exclude seeded /verif/ %s/" % VV)
     results = {}
-    bpath = "/tmp/mut/baseline.json"
+    bpath = "/tmp/mut/baseline%s.json" % SLOT
     base = json.load(open(bpath)) if os.path.exists(bpath) else {}
     vhash = sh("cd /verif && git rev-parse --short HEAD")[1].strip()
 
